@@ -189,7 +189,7 @@ theorem extractBits_8_12 (x : Nat) : extractBits x 8 12 = x / 256 % 32 := by sim
 theorem enc_sopk (c : Bool) (d : Desc) (row : Row) (f : Format)
     (hft : d.ft = FT_SOPK) (hf : f.ft = FT_SOPK) (hsz : f.size = 4)
     (hro : row.opcode = d.op) (hop : d.op < 32)
-    (hfo : fieldsOK d = true) (hl : d.lit.isSome = usesLit d) (hdev : deviates d = false) :
+    (hfo : fieldsOK d = true) (hl : d.lit.isSome = usesLit d) :
     encWord d < 2 ^ 32 ∧ encWord d / 2 ^ 28 = 11 ∧ extractBits (encWord d) 23 27 = d.op ∧
     ∀ w1?, (∀ l, encSecond d = some l → w1? = some l) →
       decodeRow c f row (encWord d) w1? = .ok (instOfRow d row) := by
@@ -205,13 +205,19 @@ theorem enc_sopk (c : Bool) (d : Desc) (row : Row) (f : Format)
   generalize encWord d = w at xi xd ⊢
   intro w1? hw1
   have hsec : encSecond d = d.lit := by simp [encSecond, hft, FT_SOP2, FT_SOPK, FT_SOP1, FT_SOPC, FT_SOPP, FT_SMEM, FT_VOP2, FT_VOP1, FT_VOPC, FT_VOP3a, FT_VOP3b, FT_FLAT, FT_DS]
-  have hul : usesLit d = false := by
-    simp [deviates, hft, FT_SOP2, FT_SOPK, FT_SOP1, FT_SOPC, FT_SOPP, FT_SMEM, FT_VOP2, FT_VOP1, FT_VOPC, FT_VOP3a, FT_VOP3b, FT_FLAT, FT_DS] at hdev
-    simp [usesLit, hft, hdev, FT_SOP2, FT_SOPK, FT_SOP1, FT_SOPC, FT_SOPP, FT_SMEM, FT_VOP2, FT_VOP1, FT_VOPC, FT_VOP3a, FT_VOP3b, FT_FLAT, FT_DS]
+  rw [hsec] at hw1
+  have hul : usesLit d = (d.op == 20) := by
+    simp [usesLit, hft, FT_SOP2, FT_SOPK, FT_SOP1, FT_SOPC, FT_SOPP, FT_SMEM, FT_VOP2, FT_VOP1, FT_VOPC, FT_VOP3a, FT_VOP3b, FT_FLAT, FT_DS]
   rw [hul] at hl
-  have hlit : d.lit = none := by cases h : d.lit <;> simp [h] at hl ⊢
   unfold decodeRow instOfRow
-  simp [hsz, hsec, hlit, dec4, hf, hft, FT_SOP2, FT_SOPK, FT_SOP1, FT_SOPC, FT_SOPP, FT_SMEM, FT_VOP2, FT_VOP1, FT_VOPC, FT_VOP3a, FT_VOP3b, FT_FLAT, FT_DS, decodeSOPK, xi, xd, gd, ed, hro]
+  simp only [hsz, hsec, dec4, hf, hft, FT_SOP2, FT_SOPK, FT_SOP1, FT_SOPC, FT_SOPP, FT_SMEM, FT_VOP2, FT_VOP1, FT_VOPC, FT_VOP3a, FT_VOP3b, FT_FLAT, FT_DS, decodeSOPK, xi, xd, gd, ed, hro]
+  cases hlit : d.lit with
+  | none =>
+    rw [hlit] at hl
+    simp [← hl]
+  | some l =>
+    rw [hlit] at hl
+    simp [← hl, hw1 l hlit, Outcome.setSize]
 
 theorem enc_sop1 (c : Bool) (d : Desc) (row : Row) (f : Format)
     (hft : d.ft = FT_SOP1) (hf : f.ft = FT_SOP1) (hsz : f.size = 4)
